@@ -50,6 +50,20 @@ def model_with(schema, home, text, seed):
     d['udts'].append({'n': 'Count', 'base': 'integer', 'comp': ''})
     # a second constant specification that holds a constant of the same name as the first one (and one of its own)
     d['consts'].append({'n': 'Bounds', 'items': [{'n': 'LIMIT', 'ty': 'integer', 'v': '9'}, {'n': 'FLOOR', 'ty': 'integer', 'v': '1'}]})
+    # state machines: the events the event statements of the corpus name (oalgen.Gen.INST_EVENTS / CLASS_EVENTS), and for
+    # the home `state` a state of A's instance state machine whose incoming event carries the data items x, flag, s, cnt
+    # (what a parameter is to a function, a data item of the received event is to a state action)
+    E = lambda numb, mning, *data: {'numb': numb, 'mning': mning, 'data': [{'n': n, 'ty': ty} for n, ty in data]}
+    ca, cb = [c for c in d['classes'] if c['kl'] == 'A'][0], [c for c in d['classes'] if c['kl'] == 'B'][0]
+    ca['sms'] = [{'kind': 'inst',
+                  'events': [E(1, 'go', ('x', 'integer'), ('flag', 'boolean'), ('s', 'string')), E(2, 'stop now'),
+                             E(3, 'set', ('n', 'integer')), E(4, 'work', *[(p['n'], p['ty']) for p in PARAMS])],
+                  'states': [{'n': 'Idle', 'numb': 1, 'body': ''},
+                             {'n': 'Working', 'numb': 2, 'via': 4, 'body': text if home == 'state' else ''}]},
+                 {'kind': 'class', 'events': [E(1, 'tick', ('n', 'integer')), E(2, 'reset')],
+                  'states': [{'n': 'Waiting', 'numb': 1, 'body': ''}]}]
+    cb['sms'] = [{'kind': 'inst', 'events': [E(1, 'ping', ('n', 'integer'), ('m', 'integer'))],
+                  'states': [{'n': 'Listening', 'numb': 1, 'body': ''}]}]
     if home == 'func':
         d['funcs'].append({'n': 'target', 'ret': 'integer', 'body': text, 'params': PARAMS})
     elif home == 'bridge':
@@ -57,7 +71,7 @@ def model_with(schema, home, text, seed):
     elif home == 'op':
         [c for c in d['classes'] if c['kl'] == 'A'][0]['ops'].append({'n': 'target', 'inst': True, 'ret': 'integer', 'body': text,
                                                                       'params': PARAMS})
-    else:
+    elif home == 'derived':
         [a for a in [c for c in d['classes'] if c['kl'] == 'A'][0]['attrs'] if a['n'] == 'Calc'][0]['body'] = text
     syn = _bp.Synth(d, seed)
     loader = bp.fresh_loader()
@@ -69,9 +83,21 @@ def model_with(schema, home, text, seed):
         inst = m.select_any('S_BRG', xtuml.where_eq(Name='target'))
     elif home == 'op':
         inst = m.select_any('O_TFR', xtuml.where_eq(Name='target'))
+    elif home == 'state':
+        inst = [a for a in m.select_many('SM_ACT') if one(a).SM_AH[514].SM_MOAH[513].SM_STATE[511]().Name == 'Working'][0]
     else:
         inst = m.select_any('O_DBATTR')
     return m, inst
+
+
+def violations(m, home):
+    """number of multiplicity and uniqueness violations.  In a state action a read of a data item of the received event is a
+    V_EPR instance without property parameter, and the ooaofooa schema makes PP_Id part of the identifier of V_EPR: that
+    null identifier is what the schema asks for, it is not counted"""
+    n = xtuml.check_association_integrity(m)
+    if home != 'state':
+        return n + xtuml.check_uniqueness_constraint(m)
+    return n + sum(xtuml.check_uniqueness_constraint(m, kind) for kind in sorted(m.metaclasses) if kind != 'V_EPR')
 
 
 def population_dump(m):
@@ -98,9 +124,9 @@ def one_item(plan, item):
     try:
         with limit(60.0):
             m, inst = model_with(schema, item['home'], text, item.get('seed', 0))
-            before = xtuml.check_association_integrity(m) + xtuml.check_uniqueness_constraint(m)
+            before = violations(m, item['home'])
             prebuild.prebuild_action(inst)
-            after = xtuml.check_association_integrity(m) + xtuml.check_uniqueness_constraint(m)
+            after = violations(m, item['home'])
             # the synthesised model is minimal (no system / diagram rows); prebuilding must not add a single violation
             ev['consistent'] = 'yes' if after == before else 'no'
             ev['violations'] = [before, after]
